@@ -34,6 +34,22 @@ theorem env_precedence (penv : List (Key × Str)) (fs : FS) (discard : Bool) (s 
     | none => rfl
     | some v => cases v <;> rfl
 
+/-- **finalEnv_is_layer_fold.**  The specification is literally a fold over the ordered layers
+    env_file 1, …, env_file n, `environment`: the last layer that speaks about the key wins. -/
+theorem finalEnv_is_layer_fold (penv : List (Key × Str)) (files : List (List Line)) (environment : List (Key × Option Str))
+    (k : Key) : finalEnv penv files environment k = pick (envLayers penv files environment) k := by
+  have h := pickFrom_fileLayers penv [] files k
+  simp only [List.nil_append] at h
+  have h0 : (filesVal penv [] k).map some = none := rfl
+  rw [h0] at h
+  unfold pick envLayers pickFrom at *
+  rw [List.foldl_append, h]
+  unfold finalEnv environmentLayer
+  simp only [List.foldl_cons, List.foldl_nil]
+  cases lookup k environment with
+  | none => rfl
+  | some v => cases v <;> rfl
+
 /-- **later_file_wins.**  If an env file gives `k` the value `v`, no later env file mentions `k` and
     `environment` does not mention `k`, the final value of `k` is `v` — whatever earlier files say. -/
 theorem later_file_wins (penv : List (Key × Str)) (fs : FS) (discard : Bool) (s s' : Service)
